@@ -26,6 +26,7 @@ type TapeFile struct {
 	Kind       string `json:"obligation_kind,omitempty"`
 	Where      string `json:"where,omitempty"`
 	Pkg        string `json:"pkg,omitempty"`
+	Owner      string `json:"owner,omitempty"`
 }
 
 type ReplayResult struct {
@@ -198,7 +199,7 @@ func runNative(ld *Loaded, items []replayItem, raceDetector bool) (map[string]Re
 }
 
 func tapeFor(r *HarnessReport, tape []TapeValue) TapeFile {
-	return TapeFile{Harness: r.Name, Bounds: r.Bounds, Tape: tape, Pkg: r.Pkg}
+	return TapeFile{Harness: r.Name, Bounds: r.Bounds, Tape: tape, Pkg: r.Pkg, Owner: r.Owner}
 }
 
 // replayAll replays every violation candidate natively.
